@@ -21,8 +21,8 @@ BUILD = os.path.join(VERIF, ".build")
 TARGET = os.path.join(BUILD, "target")
 GARDEN = os.path.join(TARGET, "debug", "garden")
 SPEC = os.path.join(VERIF, "spec")
-EVIDENCE = os.path.join(VERIF, "evidence")
-REPLAYS = os.path.join(VERIF, "replays")
+EVIDENCE = os.environ.get("VERIF_EVIDENCE_DIR") or os.path.join(VERIF, "evidence")
+REPLAYS = os.path.join(os.environ["VERIF_EVIDENCE_DIR"], "replays") if os.environ.get("VERIF_EVIDENCE_DIR") else os.path.join(VERIF, "replays")
 GUARD = "wilfred_garden_verif"
 NCPU = min(16, os.cpu_count() or 4)
 
@@ -273,7 +273,9 @@ def tlc(module, cfg=None, env=None, workers=8, timeout=900, simulate=None, depth
     e["JAVA_TOOL_OPTIONS"] = opts
     if env:
         e.update({k: str(v) for k, v in env.items()})
-    cmd = ["java", "-XX:+UseParallelGC", f"-Xmx{heap}", "-cp",
+    # -Xss must be on the command line: the launcher sizes the main thread (which
+    # computes the initial states) before JAVA_TOOL_OPTIONS is read.
+    cmd = ["java", "-Xss1g", "-XX:+UseParallelGC", f"-Xmx{heap}", "-cp",
            "/opt/veriftools/tla/tla2tools.jar:/opt/veriftools/tla/CommunityModules-deps.jar",
            "tlc2.TLC", "-workers", str(workers), "-metadir", metadir, "-cleanup",
            "-noGenerateSpecTE", "-config", cfg]
